@@ -429,7 +429,7 @@ def obligations(tier):
     # the tableau measurement law (Clifford simulators) is decided by C13's obligation; it is part of this property too
     from checks import C13 as _C13
 
-    obs += [o for o in _C13.obligations(tier) if o.name.startswith('tableau.measure') or o.name.startswith('chform.measure.')]
+    obs += [o for o in _C13.obligations(tier) if o.name.startswith('tableau.measure') or (o.name.startswith('chform.measure.') and 'simulator' not in o.name)]  # the simulator_* obligations compare with cirq.Simulator under C13's own stub set and stay in C13
 
     # ---- D: Simulator.run / DensityMatrixSimulator.run: joint distribution of all records --------------------
     def programs():
